@@ -630,6 +630,93 @@ theorem raw_tail_empty (args : List Arg) (data : RawData) (ret : List UInt8) (ha
   rw [this, h0]
   simp [← hlen]
 
+/-! ### the wire: which requests reach the bus at all
+
+`roundtrip` hands the payload to the send loop; `Packet.append` decides whether a frame can carry
+it.  These theorems pin the boundary: every payload up to `maxPayload` = MAXSIZE − PACKET_HEADER −
+DATAGRAM_HEADER − DATAGRAM_TAIL bytes — a frame of exactly MAXSIZE bytes included — is sent and
+decoded, only longer ones are refused. -/
+
+open Ebv.Consts in
+theorem sendable_iff (n : Nat) :
+    sendable n = true ↔ PACKET_HEADER + n + DATAGRAM_HEADER + DATAGRAM_TAIL ≤ MAXSIZE := by
+  unfold sendable appendSize
+  by_cases h : PACKET_HEADER + n + DATAGRAM_HEADER + DATAGRAM_TAIL > MAXSIZE
+  · simp [h]
+  · simp [h]; omega
+
+/-- the headers alone fit (checked on the limits regenerated from /repo) -/
+theorem headers_fit : Ebv.Consts.PACKET_HEADER + Ebv.Consts.DATAGRAM_HEADER + Ebv.Consts.DATAGRAM_TAIL
+    ≤ Ebv.Consts.MAXSIZE := by decide
+
+theorem sendable_iff_le (n : Nat) : sendable n = true ↔ n ≤ maxPayload := by
+  rw [sendable_iff]
+  have := headers_fit
+  unfold maxPayload
+  omega
+
+/-- the boundary itself: a payload of exactly `maxPayload` bytes makes a frame of exactly MAXSIZE
+bytes and is sent; one byte more is refused -/
+theorem wire_boundary :
+    sendable maxPayload = true ∧ sendable (maxPayload + 1) = false ∧
+    Ebv.Consts.PACKET_HEADER + maxPayload + Ebv.Consts.DATAGRAM_HEADER + Ebv.Consts.DATAGRAM_TAIL
+      = Ebv.Consts.MAXSIZE := by
+  refine ⟨(sendable_iff_le _).2 (Nat.le_refl _), ?_, ?_⟩
+  · cases h : sendable (maxPayload + 1) with
+    | false => rfl
+    | true => have := (sendable_iff_le _).1 h; omega
+  · have := headers_fit
+    unfold maxPayload
+    omega
+
+/-- SENT: every request whose payload fits one frame goes out with exactly the payload of
+`encode`, and its result is the decoding of its own response bytes -/
+theorem wire_sent (args : List Arg) (data : RawData) (bus : List UInt8 → List UInt8) (out : List UInt8)
+    (h : encode args data = some out) (hl : out.length ≤ maxPayload) :
+    wire args data bus = .sent out (decode args data (bus out)) := by
+  simp [wire, h, (sendable_iff_le _).2 hl]
+
+/-- OverflowError is raised only for payloads no single frame can carry -/
+theorem wire_overflow_iff (args : List Arg) (data : RawData) (bus : List UInt8 → List UInt8) :
+    wire args data bus = .overflow ↔ ∃ out, encode args data = some out ∧ maxPayload < out.length := by
+  unfold wire
+  cases h : encode args data with
+  | none => simp
+  | some out =>
+    simp only [Option.some.injEq, exists_eq_left']
+    by_cases hle : out.length ≤ maxPayload
+    · rw [if_pos ((sendable_iff_le _).2 hle)]
+      refine ⟨fun h => ?_, fun h => ?_⟩
+      · cases h
+      · omega
+    · have hns : ¬ sendable out.length = true := fun hs => hle ((sendable_iff_le _).1 hs)
+      rw [if_neg hns]
+      exact ⟨fun _ => (by omega), fun _ => rfl⟩
+
+/-- ROUND TRIP over the wire with an echoing bus, for every grouped request that fits a frame -/
+theorem wire_echo (gs : List Group) (t : Option Fmt) (data : RawData) (bss : List (List UInt8))
+    (h : packGroups gs = some bss) (hn : 0 ≤ rawLen data) (hne : argsOf gs t ≠ [])
+    (hfit : (bss.flatten ++ zeros (calcsize (t.getD [])) ++ rawBytes data).length ≤ maxPayload) :
+    wire (argsOf gs t) data id =
+      .sent (bss.flatten ++ zeros (calcsize (t.getD [])) ++ rawBytes data)
+        (some (match data with
+          | .none => .tuple (gs.flatMap (fun g => echoAll g.1 g.2) ++ decodeAll (t.getD []) (zeros (calcsize (t.getD []))))
+          | _ => .tupleRaw (gs.flatMap (fun g => echoAll g.1 g.2) ++ decodeAll (t.getD []) (zeros (calcsize (t.getD []))))
+                  (rawBytes data))) := by
+  obtain ⟨out, e1, e2⟩ := decode_echo gs t data bss h hn hne
+  have e3 := encode_layout gs t data bss h
+  rw [e1] at e3
+  cases e3
+  rw [wire_sent _ _ _ _ e1 hfit]
+  simp only [id]
+  rw [e2]
+  cases data <;> rfl
+
+/-- several callers at once: the i-th outcome is decided by the i-th request alone -/
+theorem wireAll_independent (reqs : List (List Arg × RawData × (List UInt8 → List UInt8))) (i : Nat) :
+    (wireAll reqs)[i]? = reqs[i]?.map fun r => wire r.1 r.2.1 r.2.2 := by
+  simp [wireAll]
+
 /-! ### non-vacuity -/
 
 def exGroups : List Group := [([⟨1, .H⟩, ⟨1, .I⟩], [.int 0x100, .int 0x1234]), ([⟨3, .s⟩], [.bytes [1, 2]])]
@@ -642,5 +729,9 @@ example : decode (argsOf exGroups (some [⟨1, .h⟩])) (.count 0) [0, 1, 0x34, 
 example : decode (argsOf exGroups none) (.bytes [7, 7]) [0, 1, 0x34, 0x12, 0, 0, 1, 2, 0, 8, 9]
     = some (.tupleRaw [.int 0x100, .int 0x1234, .bytes [1, 2, 0]] [8, 9]) := by decide
 example : encode [.fmt [⟨1, .B⟩], .val (.int 256)] .none = none := by decide
+example : sendable 1472 = true ∧ sendable 1473 = false ∧ maxPayload = 1472 := by decide
+example : wire [.fmt [⟨1, .B⟩], .val (.int 256)] .none id = .structError := by decide
+example : wire [.fmt [⟨1, .H⟩], .val (.int 0x1234)] (.bytes [9]) id
+    = .sent [0x34, 0x12, 9] (some (.tupleRaw [.int 0x1234] [9])) := by decide
 
 end Ebv.C13
